@@ -148,11 +148,16 @@ def run(F, R, tier):
     f = fn(F, "lambda_2", 3)
     E = Evaluator(F, inline=lambda n_, g: bool(re.search(r"::(sqr|lambda_2)$", n_)), max_depth=3)
     v, _ = E.function_value(f)
-    lam = canon(v)
     x, y, z = [Poly.atom(SYM(p["name"])) for p in f["params"]]
     want = Rat(x * x + y * y + z * z - (x * y + y * z + z * x).scale(2))
-    R.check("R1", (lam - want).is_zero(), "lambda_2(x,y,z) == x^2+y^2+z^2-2xy-2yz-2zx (symmetric polynomial)", F.loc(f),
-            "lambda_2(x,y,z) is not the Kaellen polynomial: %r" % lam.n, key="R1|lambda_2")
+    try:
+        gl = generic_leaf(leaves(v))            # a zero-argument early return is a regime of its own
+        lam = canon(gl[1] if gl is not None else v)
+        same, shown = (lam - want).is_zero(), repr(lam.n)[:120]
+    except NotPolynomial as e:
+        same, shown = False, str(e)[:120]
+    R.check("R1", same, "lambda_2(x,y,z) == x^2+y^2+z^2-2xy-2yz-2zx (symmetric polynomial)", F.loc(f),
+            "lambda_2(x,y,z) is not the Kaellen polynomial: %s" % shown, key="R1|lambda_2")
 
     # ---------------------------------------------------------------- R2 homogeneity
     R.rule("R2", "homogeneity: Iabc(ka,kb,kc) = Iabc/k^2, Phi(kx,ky,kz) = k Phi, lambda^2 degree 2, Phi/lambda^2 and Ixyz "
